@@ -206,7 +206,14 @@ func ledgerMonitor(c lcase, obs []lobs, entries []progress.LedgerEntry, idx map[
 					}
 				}
 				if !done {
-					vs = append(vs, core.Violation{Property: "C01", Signature: sig,
+					sg := sig
+					if o.emit == t.Commit && sig == "stale-written-after-supersession" {
+						// F1 (known) evicts the live entry: the transaction's OWN position is then never emitted,
+						// only later ones are.  An emission of exactly its own COMMIT position means its entry was
+						// there and was taken for complete: another defect in the same kind of history
+						sg += "/own-commit-emitted"
+					}
+					vs = append(vs, core.Violation{Property: "C01", Signature: sg,
 						What: fmt.Sprintf("ledger emitted %d at op %d while transaction %s (commit %d, %d changes) has no delivery whose changes were all reported written", o.emit, i, t.T, t.Commit, t.Total), Case: c})
 					break
 				}
